@@ -179,7 +179,12 @@ def _fix_variable_names(
 def _fix_undefined_variables(source: str, variables: Collection[str]) -> str:
     variables = set(variables)
 
-    lines = [line.rstrip("\r\n") for line in core.split_lines(source)]
+    # The lines keep their own line breaks, what is inserted gets the line break of the first line
+    lines = list(core.split_lines(source))
+    line_break = lines[0][len(lines[0].rstrip("\r\n")) :] if lines else ""
+    line_break = line_break or "\n"
+    if lines and not lines[-1].endswith(("\r", "\n")):
+        lines[-1] += line_break
     change_count = -len(lines)
     # Insert before the first statement that is not the module docstring or a __future__ import.
     # The position is taken from the syntax tree, so that it is never inside a multi-line statement.
@@ -204,19 +209,19 @@ def _fix_undefined_variables(source: str, variables: Collection[str]) -> str:
         if overlap:
             fix = f"from {package} import " + ", ".join(sorted(overlap))
             logger.debug("Inserting '{fix}' at line {lineno}", fix=fix, lineno=lineno)
-            lines.insert(lineno, fix)
+            lines.insert(lineno, fix + line_break)
 
     # Sorted: the lines are inserted one above the other, and a set of names has no order
     for package in sorted((constants.ASSUMED_PACKAGES | constants.PYTHON_311_STDLIB) & variables):
         fix = f"import {package}"
         logger.debug("Inserting '{fix}' at line {lineno}", fix=fix, lineno=lineno)
-        lines.insert(lineno, fix)
+        lines.insert(lineno, fix + line_break)
 
     for alias in sorted(constants.PACKAGE_ALIASES.keys() & variables):
         package = constants.PACKAGE_ALIASES[alias]
         fix = f"import {package} as {alias}"
         logger.debug("Inserting '{fix}' at line {lineno}", fix=fix, lineno=lineno)
-        lines.insert(lineno, fix)
+        lines.insert(lineno, fix + line_break)
 
     change_count += len(lines)
 
@@ -225,7 +230,7 @@ def _fix_undefined_variables(source: str, variables: Collection[str]) -> str:
     if change_count == 0:
         return source
 
-    new_source = "\n".join(lines) + "\n"
+    new_source = "".join(lines)
     if not core.is_valid_python(new_source):
         return source
 
